@@ -221,6 +221,12 @@ def main(argv=None):
         if "/call-pre#" in oid:
             continue   # a call site may legitimately disappear; the callee's own obligations remain
         fn = oid.split("/", 1)[1].rsplit("/", 1)[0] if "/" in oid else oid
+        # pack option LOCK_OPTIONAL_KINDS (e.g. ("inv-init", "inv-preserve", "decreases")): obligations of these kinds exist only
+        # while the code has the construct (a loop rewritten as a comprehension has no invariant); they may disappear as long as
+        # the same function still generates its other obligations (returns / ensures / raises ...)
+        if any(f"/{k}#" in oid for k in getattr(pack, "LOCK_OPTIONAL_KINDS", ())) and \
+                any(o_["id"].startswith(oid.rsplit("/", 1)[0] + "/") for o_ in obligations):
+            continue
         if any(fn.split("::")[-1] in m and fn.split("::")[0].split("/")[-1] in m for m in missing_fn_prefixes):
             continue
         really_missing.append(oid)
